@@ -40,8 +40,9 @@ def correspondence(ctx):
     ctx.sample({"operators": ["build_laplace_operator(order 0,2,4,6)", "derivative(order 1..)", "Poisson(order 2,4)"]})
 
 
-def probe_derivative(D, N, order, seed):
-    """analytic partial derivatives of a Nyquist-free trigonometric polynomial"""
+def probe_derivative(D, N, order, seed, top=False):
+    """analytic partial derivatives of a Nyquist-free trigonometric polynomial (`top`: the highest resolvable wavenumber
+    along some axis is present — high orders on fine grids, where k**order leaves every 32-bit integer range)"""
     import jax.numpy as jnp
     from exponax import spectral as sp
     rng = np.random.default_rng(seed)
@@ -49,6 +50,11 @@ def probe_derivative(D, N, order, seed):
     kmax = (N - 1) // 2
     C = 2
     modes = [[(rng.integers(-kmax, kmax + 1, D), float(rng.normal()), float(rng.uniform(0, 2 * np.pi))) for _ in range(3)] for _ in range(C)]
+    if top:
+        for c in range(C):
+            k = modes[c][0][0].copy()
+            k[int(rng.integers(0, D))] = kmax if c % 2 == 0 else -kmax
+            modes[c][0] = (k, 1.0 + abs(modes[c][0][1]), modes[c][0][2])
     x = np.stack(np.meshgrid(*[np.arange(N) * L / N] * D, indexing="ij"))
     u = np.zeros((C,) + (N,) * D)
     want = np.zeros((C, D) + (N,) * D)
@@ -104,6 +110,13 @@ def probe_symbols(D, N, seed):
 
 def oracle(ctx, deep):
     fails = []
+    # high order x high wavenumber: k**order beyond 2**31 (and beyond 2**53 for the last one)
+    for (D, N, order) in [(1, 80, 6), (1, 161, 5), (2, 76, 6), (1, 450, 4), (1, 2600, 3), (1, 1000, 6)] + ([(3, 75, 6), (2, 151, 5)] if deep else []):
+        r = probe_derivative(D, N, order, ctx.seed, top=True)
+        ctx.count(("oracle_derivative_top", D, N, order))
+        if not r["ok"]:
+            fails.append({"key": f"C05:derivative-top:order{order}:D{D}", "what": f"derivative(order={order}) of a field containing the highest resolvable wavenumber differs from the analytic derivative (D={D}, N={N}): {r}",
+                          "probe": "derivative", "args": {"D": D, "N": N, "order": order, "seed": ctx.seed, "top": True}, "observed": r})
     cases = [(1, 9), (1, 12), (2, 6), (2, 7), (3, 5)] if not deep else [(1, n) for n in range(4, 18)] + [(2, n) for n in range(4, 10)] + [(3, 4), (3, 5), (3, 6)]
     for (D, N) in cases:
         for order in ((1, 2, 3, 6) if not deep else range(1, 7)):
